@@ -12,7 +12,7 @@ use cao_lang::compiler::{compile, CompileOptions};
 use cao_lang::prelude::*;
 use cvx_core::engine::{Check, CheckInfo, ChunkResult, Tier, Violation};
 use cvx_core::gen_basic::Family;
-use cvx_core::gen_reenter::FReenter;
+use cvx_core::gen_reenter::{FReenter, FTryCall};
 use cvx_core::ir::{self, *};
 use cvx_core::region::RegionOpts;
 use serde_json::{json, Value as J};
@@ -398,7 +398,7 @@ fn reserved_names() -> Option<(String, String)> {
 static FAMS: OnceLock<Vec<Box<dyn Family>>> = OnceLock::new();
 
 pub fn families(_tier: Tier) -> &'static Vec<Box<dyn Family>> {
-    FAMS.get_or_init(|| vec![Box::new(FReenter)])
+    FAMS.get_or_init(|| vec![Box::new(FReenter), Box::new(FTryCall)])
 }
 
 static JUDGE: SemJudge = SemJudge { property: "C18", opts: RegionOpts { inline_array: false } };
